@@ -3,7 +3,7 @@
 cd "$(dirname "$0")"
 python3 gen_manifest.py >/dev/null || exit 1
 rc=0
-for id in $(python3 -c "from vconfig import PROPS; print(' '.join(sorted(PROPS)))"); do
+for id in $(python3 -c "from manifest_meta import CLAIMED; print(' '.join(sorted(CLAIMED)))"); do
   ./vcheck $id --build-only || rc=1
 done
 exit $rc
